@@ -134,6 +134,9 @@ private:
 
   std::mutex callback_lock;
   std::vector<void*> callback_keys;
+  // Incremented by destroy_sandbox, so that callback owners which outlive the
+  // incarnation of the sandbox they registered with can be told apart
+  uint32_t sandbox_incarnation = 0;
 
   void* transition_state = nullptr;
 
@@ -304,12 +307,20 @@ private:
    * calling this function henceforth.
    */
   template<typename T_Ret, typename... T_Args>
-  inline void unregister_callback(void* key)
+  inline void unregister_callback(void* key, uint32_t incarnation)
   {
     // Silently swallowing the failure is better here as RAII types may try to
     // cleanup callbacks after sandbox destruction
     if (sandbox_created.load() != Sandbox_Status::CREATED) {
       return;
+    }
+    // The same holds for a callback registered with an earlier incarnation of
+    // this sandbox object: that registration ended with destroy_sandbox
+    {
+      std::lock_guard<std::mutex> lock(callback_lock);
+      if (incarnation != sandbox_incarnation) {
+        return;
+      }
     }
 
     this->template impl_unregister_callback<
@@ -446,6 +457,20 @@ public:
         el_ref != sandbox_list.end(),
         "Unexpected state. Destroying a sandbox that was never initialized.");
       sandbox_list.erase(el_ref);
+    }
+
+    // Nothing that belonged to this incarnation may be visible if the sandbox
+    // object is created again: forget callback registrations and cached
+    // symbol addresses
+    {
+      std::lock_guard<std::mutex> lock(callback_lock);
+      callback_keys.clear();
+      sandbox_incarnation++;
+    }
+    {
+      RLBOX_ACQUIRE_UNIQUE_GUARD(lock, func_ptr_cache_lock);
+      func_ptr_map.clear();
+      internal_func_ptr_map.clear();
     }
 
     sandbox_created.store(Sandbox_Status::NOT_CREATED);
@@ -958,7 +983,8 @@ public:
         tainted_func_ptr,
         callback_interceptor,
         callback_trampoline,
-        unique_key);
+        unique_key,
+        sandbox_incarnation);
       return ret;
     }
   }
